@@ -7,10 +7,10 @@ property count.  Direct monitor of the property on the same kind of runs (harnes
 """
 from .. import refine, runs
 
-MODULE = "PyhmsVerif.Props.C06"
-THEOREMS = ['C06.C06_absorbing', 'C06.C06_running_frame', 'C06.C06_only_active_runs', 'C06.C06_new_runs_next']
+MODULE = 'PyhmsVerif.Props.C06Step'
+THEOREMS = ['C06.C06_absorbing', 'C06.C06_running_frame', 'C06.C06_only_active_runs', 'C06.C06_new_runs_next', 'C06.C06_one_metaepoch', 'C06.C06_one_metaepoch_reachable', 'C06.run_phase', 'C06.schedule_nodup']
 LEVEL = 'proof'
-LEVEL_TEXT = 'Theorems for every later state of every accepted run (positional, independent of ids): an inactive deme is never reactivated and its history and counter never change; histories are append-only; only an active deme can run; generations never create demes or touch the metaepoch counter; demes created by a round are active, start at the current metaepoch and cannot run before the next step. Tie: trace refinement (schedule, generation counts, LSC/GSC/CMA-stop consequences are computed by the model and diffed) + direct monitor.'
+LEVEL_TEXT = 'Theorems for every later state of every accepted run (positional, independent of ids): an inactive deme is never reactivated and its history and counter never change; histories are append-only; only an active deme can run; generations never create demes or touch the metaepoch counter; demes created by a round are active, start at the current metaepoch and cannot run before the next step. Tie: trace refinement (schedule, generation counts, LSC/GSC/CMA-stop consequences are computed by the model and diffed) + direct monitor. C06_one_metaepoch: from any boundary state with pairwise distinct ids (every reachable state, C07_wf), after the loop-head consult came out false, ANY accepted sequence of generation / local-search events that reaches the end of run_metaepoch leaves every scheduled deme (active and awake when the step began) with exactly one more recorded metaepoch and every other deme unchanged (run_phase, schedule_nodup).'
 LEVEL_NOTE = 'Trusted: Lean kernel + standard axioms; the hand-written tree model (Tree.step) is tied to DemeTree.run by trace refinement on sampled runs (every run is re-executed by the model, dumps and sprout stages diffed); numerical engines (NumPy RNG, cma, scipy), objective values and user-defined stop-condition verdicts are environment; monitors trusted as failing-input search. The equivalence inactive <-> (LSC verdict or GSC verdict or engine self-stop) is computed by the model per engine and checked by refinement, not stated as a separate theorem; exactly-one-metaepoch-per-step is checked by refinement and monitor.'
 TECHNIQUE = "trace refinement against the Lean tree model (Tree.step re-executes real runs) + direct monitors"
 RULE = "case = one traced run of a random configuration (1-3 levels, engine per level from the full list, every shipped GSC/LSC kind plus user-defined ones, both stock sprout mechanisms and user-composed chains, hibernation on/off, both directions, decimal boxes, optional cutoff/precision/stats wrappers, shared or per-level problems); non-trivial = run with >= 2 demes and >= 2 metaepochs; distinct by configuration hash"
